@@ -17,6 +17,9 @@ a == <<97>>  b == <<98>>  c == <<99>>  k == <<107>>  ll == <<108>>  s == <<115>>
 Q1(key, val) == << <<key, val>> >>
 Q2(k1, v1, k2, v2) == << <<k1, v1>>, <<k2, v2>> >>
 \* ns / name boundary
+\* builder-made values with insignificant segments: different values, different strings
+F0 == {V(T, <<>>, c, <<>>, <<>>, s), V(T, <<>>, c, <<>>, <<>>, s \o <<47>>), V(T, <<>>, c, <<>>, <<>>, <<47>> \o s), V(T, <<>>, c, <<>>, <<>>, <<47>>),
+       V(T, a, c, <<>>, <<>>, <<>>), V(T, a \o <<47>>, c, <<>>, <<>>, <<>>), V(T, <<47>>, c, <<>>, <<>>, <<>>), V(T, <<>>, c, <<>>, <<>>, <<46>>)}
 F1 == {V(T, a \o <<47>> \o b, c, <<>>, <<>>, <<>>), V(T, a, b \o <<47>> \o c, <<>>, <<>>, <<>>), V(T, <<>>, a \o <<47>> \o b \o <<47>> \o c, <<>>, <<>>, <<>>),
        V(T, a \o <<37,50,70>> \o b, c, <<>>, <<>>, <<>>), V(a, b, c, <<>>, <<>>, <<>>)}
 \* name / version boundary
@@ -30,12 +33,13 @@ F3 == {V(T, <<>>, c, one, Q1(k, v), <<>>), V(T, <<>>, c, one \o <<63>> \o k \o <
 F4 == {V(T, <<>>, c, <<>>, Q1(k, a \o <<38>> \o ll \o <<61>> \o c), <<>>), V(T, <<>>, c, <<>>, Q2(k, a, ll, c), <<>>),
        V(T, <<>>, c, <<>>, Q1(k, a \o <<61>> \o b), <<>>), V(T, <<>>, c, <<>>, Q1(k, a), <<>>), V(T, <<>>, c, <<>>, Q1(k \o a, <<61>> \o b), <<>>),
        V(T, <<>>, c, <<>>, Q1(k, a \o <<37,50,54>> \o ll \o <<61>> \o c), <<>>), V(T, <<>>, c, <<>>, Q2(k, a, ll, c \o <<38>>), <<>>),
+       V(T, <<>>, c, <<>>, Q1(k \o a, a), <<>>), V(T, <<>>, c, <<>>, Q1(k \o <<95>>, a), <<>>), V(T, <<>>, c, <<>>, Q2(k, a, k \o a, a), <<>>),
        V(T, <<>>, c, <<>>, Q1(k, a \o <<43>> \o b), <<>>), V(T, <<>>, c, <<>>, Q1(k, a \o <<32>> \o b), <<>>), V(T, <<>>, c, <<>>, Q1(k, a \o <<37,50,48>> \o b), <<>>)}
 \* letter case, literal escapes, non-ASCII
 F5 == {V(T, <<>>, c, <<>>, <<>>, <<>>), V(T, <<>>, <<67>>, <<>>, <<>>, <<>>), V(T, <<>>, <<37,54,51>>, <<>>, <<>>, <<>>), V(T, <<>>, <<233>>, <<>>, <<>>, <<>>),
        V(T, <<>>, <<37,67,51,37,65,57>>, <<>>, <<>>, <<>>), V(T, <<>>, <<101, 769>>, <<>>, <<>>, <<>>), V(<<116, 116>>, <<>>, c, <<>>, <<>>, <<>>),
        V(T, c, c, <<>>, <<>>, <<>>), V(T, <<>>, c, c, <<>>, <<>>), V(T, <<>>, c, <<>>, <<>>, c), V(T, <<>>, c, <<>>, Q1(c, c), <<>>)}
-Universe == IF SIZE = "q" THEN F1 \cup F2 \cup F4 ELSE F1 \cup F2 \cup F3 \cup F4 \cup F5
+Universe == IF SIZE = "q" THEN F0 \cup F1 \cup F2 \cup F4 ELSE F0 \cup F1 \cup F2 \cup F3 \cup F4 \cup F5
 USeq == SortStrs({FormatSpec(x) : x \in Universe})       \* only used to order the emitted set deterministically
 
 VARIABLES x, y
